@@ -205,7 +205,7 @@ theorem stInv_unlearn {e : Editor D L} (hi : EditorInv env G e) {d : D}
       rw [hp] at h1
       have hw' := hw p.strategy (by simp only [selStrategy, hp])
       exact ⟨h1.com.trans (by rw [hc]), h1.lt, h1.le, h1.syl, fun c hcm => by
-        rw [hd]; exact hw' c (by rw [← h1.com]; exact hcm)⟩
+        rw [hd]; exact hw' c (by rw [← h1.com]; exact hcm), h1.anchor⟩
     · next y hp => rw [hp] at h1; exact h1
     · next sym hp => rw [hp] at h1; exact h1
   | entering => trivial
